@@ -101,7 +101,7 @@ func run(tier string) int {
 
 	bd := tierBounds(tier)
 	agg := struct {
-		states, transitions, reconciles, foreign, writeFree, mustFree, afterForeign, perms, maxDepth, closed, capHits, det, finals int
+		states, transitions, reconciles, foreign, writeFree, mustFree, afterForeign, perms, subsets, maxDepth, closed, capHits, det, finals int
 	}{}
 	kindPGs := map[string]int{}
 	kindsSeen := map[string]bool{}
@@ -121,6 +121,7 @@ func run(tier string) int {
 		agg.mustFree += st.MustFree
 		agg.afterForeign += st.AfterForeign
 		agg.perms += st.Perms
+		agg.subsets += st.Subsets
 		agg.det += st.DetReplays
 		agg.finals += st.Finals
 		agg.maxDepth = max(agg.maxDepth, st.MaxDepth)
@@ -188,6 +189,7 @@ func run(tier string) int {
 		"owner_kinds_covered":                 kindList,
 		"podgroups_produced_per_kind":         kindPGs,
 		"permutations_explored":               agg.perms,
+		"replica_subsets_explored":            agg.subsets,
 		"max_history_depth":                   agg.maxDepth,
 		"history_depth_bound":                 bd.depth,
 		"scenarios_closed_before_depth_bound": agg.closed,
@@ -312,7 +314,7 @@ func replay(path string) int {
 		fmt.Printf("  store: %s\n", js)
 		clean := true
 		for _, l := range hist {
-			if !isReconcile(l) {
+			if isForeign(l) {
 				clean = false
 			}
 		}
@@ -322,7 +324,18 @@ func replay(path string) int {
 	if a == nil {
 		return 2
 	}
-	if len(v.Replay.Other) > 0 {
+	if v.Replay.Law == "replica-independence" {
+		full := runOne(v.Replay.Other)
+		if full == nil {
+			return 2
+		}
+		for _, x := range replicaViolations(sc, a.hist, a.view, full) {
+			fmt.Printf("  oracle: %s: %s\n", x.Key, x.Message)
+			if x.Key == v.Key {
+				found = true
+			}
+		}
+	} else if len(v.Replay.Other) > 0 {
 		bf := runOne(v.Replay.Other)
 		if bf == nil {
 			return 2
